@@ -78,9 +78,11 @@ CLAIMED.update({
     "C13": ("c13_failed_upload (removed if clean-on-error, else a prefix of the bytes received), c13_completed_upload for every reachable receiver state; the second half of the property is false of the code: "
             "c13_stale_cleanup_witness is a kernel-checked history, replayed on two real workers on every run and listed as a known finding (D6); abort at every kind of point x cause x {clean, keep} x windowsize on the real Worker::receive.", "5/C13",
             "Lean 4 proof (single owner) + kernel-checked counter-example replayed on the implementation (known finding)"),
-    "C14": ("c14_client_request, c14_client_adopts_oack, c14_download_target, c14_refusal_creates_nothing, c14_upload_plain_ack_defaults for the client glue; the transfer itself is the closed loop of C04 "
+    "C14": ("c14_fault_free_transfer: for every file, block size >= 1 and window size 1..65535 the sender and receiver models connected by loss-free FIFO queues both end successfully with an identical file "
+            "(inductive invariant over the scheduler steps, unbounded); c14_client_request, c14_client_adopts_oack, c14_download_target, c14_refusal_creates_nothing, c14_upload_plain_ack_defaults for the client glue; "
+            "the models are tied to the code by the real closed loop "
             "(fault-free runs of the real sender against the real receiver over sizes x blksize x windowsize x repeat, diffed against the Lean simulator) plus the real tftpc against the real tftpd "
-            "(download/upload x port modes x IPv4/IPv6 x option choices x path forms x refusal). Partial: kernel socket buffers and real timers; the closed-loop completion theorem is not proved in general.", "5/C14",
+            "(download/upload x port modes x IPv4/IPv6 x option choices x path forms x refusal). Partial: kernel socket buffers and real timers.", "5/C14",
             "Lean 4 theorems on client glue + real-worker closed loop vs simulator + real binaries on loopback"),
 })
 PENDING = {}
